@@ -270,12 +270,22 @@ func (sc *c16scn) settle() (*c16state, string) {
 	}
 }
 
-func (sc *c16scn) teardown() {
+// teardown stops the scenario's threads.  StopThreads takes the debugger's locks and every
+// thread's condition lock: when it does not return within the bound a lock was left behind
+// (the return value tells, the caller reports it).
+func (sc *c16scn) teardown() (stopHangs bool) {
 	if sc.dead {
-		return
+		return false
 	}
 	sc.releaseHolds()
-	guarded(c16timeout, func() (interface{}, error) { sc.dbg.StopThreads(0); return nil, nil })
+	stop := func() bool {
+		r := guarded(c16timeout, func() (interface{}, error) { sc.dbg.StopThreads(0); return nil, nil })
+		return r.TimedOut
+	}
+	if stop() {
+		sc.dead = true
+		return true
+	}
 	for round := 0; round < 50; round++ {
 		all := true
 		for _, th := range sc.threads {
@@ -290,9 +300,13 @@ func (sc *c16scn) teardown() {
 		}
 		// a killed thread stops at its next state; threads may have suspended again meanwhile
 		sc.releaseHolds()
-		guarded(c16timeout, func() (interface{}, error) { sc.dbg.StopThreads(0); return nil, nil })
+		if stop() {
+			sc.dead = true
+			return true
+		}
 	}
 	sc.erp.Cron.Stop()
+	return false
 }
 
 // ---- abstraction of words and states into Coq terms --------------------------------------
@@ -424,7 +438,11 @@ func c16stateClass(sc *c16scn, st *c16state) string {
 // c16run executes a script; every command line from index `from` on is a case.
 func c16run(c *Ctx, cfg c16cfg, script []string, from int) {
 	sc := c16newScn(cfg)
-	defer sc.teardown()
+	defer func() {
+		if !sc.dead && sc.teardown() {
+			c.Violate("debugger-stops-answering", "StopThreads at the end of the scenario did not return within the time bound (a debugger or thread condition lock was left held by an earlier command)", c16desc{cfg, script})
+		}
+	}()
 	pre, msg := sc.settle()
 	if pre == nil {
 		c.Dist["scenario_abandoned_"+msg]++
@@ -798,6 +816,11 @@ func runC16(c *Ctx) error {
 		{c16cfg{Global: true, DoErr: true}, []string{"!start", "status"}},
 		{c16cfg{Global: true}, []string{"breakonstart", "!start", "lockstate"}},
 		{c16cfg{}, []string{"lockstate", "extract 1 a b", "inject 1 a 1"}},
+		// continue a thread that is not suspended but still has its interrogation state, repeatedly
+		{c16cfg{Global: true}, []string{"break " + c16bpLast, "!start", "cont 1 resume", "cont 1 resume", "cont 1 stepover", "break " + c16bpTop}},
+		{c16cfg{Global: true, HoldIn: true}, []string{"break " + c16bpNested, "!start", "cont 1 stepout", "cont 1 stepout", "cont 1 resume", "rmbreak src"}},
+		// a failing inject expression, then further commands
+		{c16cfg{Global: true}, []string{"break " + c16bpTop, "!start", "inject 1 a 1+", "inject 1 a )", "inject 1 a 1", "status"}},
 	}
 	for _, d := range corpus {
 		c16run(c, d.Cfg, d.Script, 0)
@@ -830,6 +853,36 @@ func runC16(c *Ctx) error {
 		flush()
 	}
 
+	// repeated continue commands to one thread id: 2..4 in a row over all continue types, in every
+	// set-up state (the interesting ones: thread running with interrogation state, thread finished
+	// while still marked running - the id stays valid and every further cont must be a no-op that
+	// leaves no lock behind); every line is followed by the write-lock probe and "status", the
+	// scenario end by StopThreads within the bound
+	types := []string{"resume", "stepin", "stepover", "stepout"}
+	nrep := 0
+	for _, su := range c16setups {
+		for _, tid := range []string{"1", "2"} {
+			if tid == "2" && su.Name != "top-level-and-in-calls" {
+				continue
+			}
+			for i, t1 := range types {
+				for j, t2 := range types {
+					if c.Enough() {
+						break
+					}
+					script := append([]string{}, su.Script...)
+					script = append(script, "cont "+tid+" "+t1, "cont "+tid+" "+t2, "cont "+tid+" "+types[(i+j)%4])
+					if (i+j)%2 == 0 {
+						script = append(script, "cont "+tid+" "+types[(i+2*j+1)%4], "break "+c16bpTop, "extract "+tid+" a zz")
+					}
+					c16run(c, su.Cfg, script, len(su.Script))
+					nrep++
+				}
+			}
+		}
+	}
+	c.Extra["repeated_cont_scripts"] = nrep
+
 	// random scenarios
 	nscn := c.Pick(150, 1500)
 	for i := 0; i < nscn && !c.Enough(); i++ {
@@ -851,7 +904,10 @@ func runC16(c *Ctx) error {
 			case r < 17:
 				script = append(script, "!release")
 			case r < 30:
-				script = append(script, "cont "+c16tids[c.Rng.Intn(2)]+" "+c16conts[c.Rng.Intn(4)])
+				tid := c16tids[c.Rng.Intn(2)]
+				for rep := 1 + c.Rng.Intn(4); rep > 0; rep-- {
+					script = append(script, "cont "+tid+" "+c16conts[c.Rng.Intn(4)])
+				}
 			default:
 				script = append(script, c16randLine(c, exprs, pool))
 			}
